@@ -16,8 +16,11 @@ then the queue. -/
 def pipeline (s : Sys) : List Pkt := sentPkts s.wire ++ (cur s).popped ++ s.queue
 
 /-- The `queued` packets of a program, in program order. -/
-def queuedPkts (prog : List Op) : List Pkt :=
-  prog.filterMap fun op => match op with | .queued p => some p | _ => none
+def Op.queuedPkt : Op → Option Pkt
+  | .queued p => some p
+  | _ => none
+
+def queuedPkts (prog : List Op) : List Pkt := prog.filterMap Op.queuedPkt
 
 theorem popped_needsOpen (pc : Pc) (h : pc.popped ≠ []) : pc.needsOpen = true := by
   unfold Pc.popped at h; unfold Pc.needsOpen; split at h <;> simp_all
@@ -142,6 +145,10 @@ theorem queuedPkts_snoc (l : List Op) (op : Op) :
     queuedPkts (l ++ [op]) = queuedPkts l ++ queuedPkts [op] := by
   simp [queuedPkts]
 
+@[simp] theorem queuedPkts_disc (imm : Bool) : queuedPkts [.disconnect imm] = [] := rfl
+@[simp] theorem queuedPkts_forced (p : Pkt) : queuedPkts [.forced p] = [] := rfl
+@[simp] theorem queuedPkts_queued (p : Pkt) : queuedPkts [.queued p] = [p] := rfl
+
 theorem pktsOf_snoc (l : List Op) (op : Op) : pktsOf (l ++ [op]) = pktsOf l ++ op.pkts := by
   simp [pktsOf]
 
@@ -175,17 +182,17 @@ theorem prog_step (cfg : Cfg) (progs : List (List Op)) (s s' : Sys) (t : Tid) (h
     rcases eff_prog s s' u ev he with ⟨h1, -, -⟩ | ⟨imm, h1, -, -⟩ | ⟨p, h1, h2, -⟩ | ⟨p, hev, h1, h2⟩
     · exact ⟨done, by rw [h1]; exact hd1, hd2.trans hsub, fun p hp => hiss p (hd3 p hp)⟩
     · refine ⟨done ++ [.disconnect imm], by rw [hd1, h1]; simp, ?_, ?_⟩
-      · rw [queuedPkts_snoc]; simpa [queuedPkts] using hd2.trans hsub
+      · rw [queuedPkts_snoc]; simpa using hd2.trans hsub
       · intro p hp; rw [pktsOf_snoc] at hp; simp [Op.pkts] at hp; exact hiss p (hd3 p hp)
     · refine ⟨done ++ [.forced p], by rw [hd1, h1]; simp, ?_, ?_⟩
-      · rw [queuedPkts_snoc]; simpa [queuedPkts] using hd2.trans hsub
+      · rw [queuedPkts_snoc]; simpa using hd2.trans hsub
       · intro q hq; rw [pktsOf_snoc] at hq; simp [Op.pkts] at hq
         rcases hq with hq | hq
         · exact hiss q (hd3 q hq)
         · simp [h2, hq]
     · refine ⟨done ++ [.queued p], by rw [hd1, h1]; simp, ?_, ?_⟩
       · rw [queuedPkts_snoc, happ p hev]
-        exact List.Sublist.append hd2 (by simp [queuedPkts])
+        exact List.Sublist.append hd2 (by simp)
       · intro q hq; rw [pktsOf_snoc] at hq; simp [Op.pkts] at hq
         rcases hq with hq | hq
         · exact hiss q (hd3 q hq)
